@@ -302,6 +302,26 @@ example : FixOk ⟨true, 8, 4⟩ ∧ (0xf8 : Nat) < 2 ^ (⟨true, 8, 4⟩ : Fmt)
     fixToFloat ⟨true, 8, 4⟩ 0xf8 = .ok (.fin ⟨-8, -4⟩) :=
   ⟨⟨by decide, by decide, by decide, by decide⟩, by decide, by decide +kernel⟩
 
+/-- **The executable rule `SpecFp` read over the rationals:** with `x = v * 2^n_frac`,
+`r = max` when `x >= max + 1`, `r = min` when `x <= min - 1`, otherwise `r` is `x` truncated
+toward zero (`r <= x < r + 1` for `x >= 0`, `r - 1 < x <= r` for `x < 0`). -/
+theorem specFp_iff_rat (fmt : Fmt) (v : Dy) (r : Int) :
+    SpecFp fmt v r ↔
+      (let x := scaledRat fmt v
+       if ((fmt.maxV + 1 : Int) : ℚ) ≤ x then r = fmt.maxV
+       else if x ≤ ((fmt.minV - 1 : Int) : ℚ) then r = fmt.minV
+       else (0 ≤ x → (r : ℚ) ≤ x ∧ x < ((r + 1 : Int) : ℚ)) ∧ (x < 0 → ((r - 1 : Int) : ℚ) < x ∧ x ≤ (r : ℚ))) := by
+  have hd : 0 < scaledDen fmt v := den_pos (v.e + fmt.frac)
+  have hn := scaledNum_rat fmt v
+  unfold SpecFp IsTrunc
+  simp only
+  have z1 : (0 ≤ scaledNum fmt v) ↔ (0 : ℚ) ≤ scaledRat fmt v := by
+    have := cast_cmp_le 0 _ _ _ hd hn; simpa using this
+  have z2 : (scaledNum fmt v < 0) ↔ scaledRat fmt v < (0 : ℚ) := by
+    have := cast_cmp_lt' 0 _ _ _ hd hn; simpa using this
+  simp only [cast_cmp_le _ _ _ _ hd hn, cast_cmp_le' _ _ _ _ hd hn, cast_cmp_lt' _ _ _ _ hd hn,
+    cast_cmp_lt _ _ _ _ hd hn, z1, z2]
+
 /-! non-vacuity of the hypotheses of fp_sat / fp_range / fp_lsb / fp_mono: concrete conversions in
 the S3.4 format (0.5 -> 8, -0.51 -> -8, 100 -> 127) that are in range resp. ordered -/
 example : floatToFp ⟨true, 8, 4⟩ ⟨1, -1⟩ = .ok 8 ∧ floatToFp ⟨true, 8, 4⟩ ⟨-131, -8⟩ = .ok (-8) ∧
